@@ -15,6 +15,7 @@ import RV.Base.Proto
                                       dataset clause in order; i50/i51 = loadable documents
     read contains4 <g> <how 0|1> <s p o> | quads4 … | triples4 … | triplesctx <g> <s p o>     (`*` = wildcard)
     read len | iter | triples <s p o> | contains3 <s p o>
+    read hext | trans <node> <p> <fwd 0|1> | iso <g1> <g2> | canon <g> | diff <g1> <g2>   (compare ops: ground graphs)
     read agglen <g,g,…> | aggtriples <g,…> <s p o> | aggcontains … | aggquads …     ReadOnlyGraphAggregate over views
     foreign <g> s p o        -> ok    `_graph(foreign graph)`: the documented WRITE (not a ReadOp)
     obs                      -> `s,p,o,g … | names… | bound namespace ids…`   (unsorted; the harness sorts both sides)
@@ -68,6 +69,11 @@ def body? (w : String) : Option (View → List (List Nat)) :=
     some (fun v => v.named.flatMap (fun b => b.2.map (fun t => [gcode b.1, t.1, t.2.1, t.2.2])))
   else if w = "x" then some (fun v => [v.dflt.map (·.1)])
   else none
+
+/-- digest for GROUND graphs (no blank nodes: isomorphic = equal as sets): the sorted triples as one number -/
+def digestEnc (ts : List Triple) : Nat :=
+  (sortBy lexLt (ts.map (fun t => [t.1, t.2.1, t.2.2]))).foldl
+    (fun a t => t.foldl (fun a x => a * 1000 + x + 1) a) 1
 
 def pat? (a b c : String) : Option Pat := do
   let a ← optNat? a
@@ -170,6 +176,11 @@ def readOp? (d : D) (s : State) : List String → Option ReadOp
   | ["aggtriples", gs, a, b, c] => do let gs ← gnames? s gs; let p ← pat? a b c; pure (.aggTriples gs p)
   | ["aggcontains", gs, a, b, c] => do let gs ← gnames? s gs; let p ← pat? a b c; pure (.aggContains gs p)
   | ["aggquads", gs, a, b, c] => do let gs ← gnames? s gs; let p ← pat? a b c; pure (.aggQuads gs p)
+  | ["hext"] => some .serializeHext
+  | ["trans", x, p, f] => do let x ← x.toNat?; let p ← p.toNat?; pure (.transitive x p (f = "1"))
+  | ["iso", a, b] => do let a ← gname? s a; let b ← gname? s b; pure (.isomorphic a b digestEnc)
+  | ["canon", a] => (gname? s a).map (fun a => .canonical a id)
+  | ["diff", a, b] => do let a ← gname? s a; let b ← gname? s b; pure (.diff a b id)
   | ["len"] => some .len
   | ["iter"] => some .iter
   | ["triples", a, b, c] => (pat? a b c).map .slice
